@@ -23,13 +23,9 @@ class CentreArc(object):
 
 
 def _angle(ux, uy, vx, vy):
-    n = math.hypot(ux, uy) * math.hypot(vx, vy)
-    d = (ux * vx + uy * vy) / n
-    d = max(-1.0, min(1.0, d))
-    a = math.acos(d)
-    if ux * vy - uy * vx < 0:
-        a = -a
-    return a
+    # the signed angle of F.6.5 (arccos of the normalised dot product, signed by the cross product), evaluated with
+    # atan2(cross, dot): the same angle, without the loss of half the digits that arccos suffers next to 0 and pi
+    return math.atan2(ux * vy - uy * vx, ux * vx + uy * vy)
 
 
 def endpoint_to_centre(x1, y1, rx, ry, phi_deg, fa, fs, x2, y2):
